@@ -147,6 +147,9 @@ class Program:
                     canon.canonicalise(rel, tree, src=src)
                 self.modules[rel] = tree
                 self.sources[rel] = src
+        from . import canon
+        self.idioms_restored, self.idiom_note = canon.restore_package(
+            self.modules, self.sources)
         for rel, tree in self.modules.items():
             for n in tree.body:
                 if isinstance(n, ast.ClassDef):
